@@ -28,7 +28,8 @@ META = {
              '(empty/shared/many-to-many/cyclic/self links) + coreLang with random models; every nested call of the '
              'real evaluator and every direct call on a sub-expression is compared with an independent interval '
              'semantics; a case is non-trivial when at least one non-field operator was evaluated on a non-empty '
-             'input; distinct = digest of (language spec, abstract model)'),
+             'input; distinct = digest of (language spec, abstract model)'
+             '; added strata: shared strata (DESIGN 11.5): large languages / models, names nested in one another, (f[T])* operands, histories with a shared association instance one member of which leaves after a mid-history generation, the interference layer (other language graphs, refused calls, interrupted and twin generations), DEBUG log level'),
     'assumptions': [
         'reference semantics in mtv/ref_sem.py is the MAL meaning (collect is element-wise; e* within [closure+, closure*])',
         'generated languages are inside what malc accepts (DESIGN 2.1)',
